@@ -18,6 +18,9 @@
 (* Driver steps (each followed by "run to quiescence"):                        *)
 (*   start    start the run (and, for map / gen, a consumer that drains)       *)
 (*   rel i    release the user function holding item i                         *)
+(*   cancel m the caller cancels its context (m = 0) / the consumer closes the   *)
+(*            output (m = 1, map / gen) while user functions are held; only      *)
+(*            `drain` follows                                                    *)
 (*   drain    release whatever is held, ONE AT A TIME, lowest item first, each *)
 (*            followed by quiescence, until nothing is held and the run is     *)
 (*            over; then take the result (returned error / Close())            *)
@@ -60,13 +63,16 @@ CONSTANTS Constructs,    \* subset of {"pp", "pfe", "worker", "map", "gen"}
           MaxFaultPos,   \* ... at positions 1..MaxFaultPos
           OptSet,        \* subset of Opts
           Colls,         \* subset of {"default", "custom"}
+          CancelModes,   \* subset of {0, 1}: 0 = the caller's context is cancelled, 1 = the consumer closes the output
+                         \* (map / gen only); {} = schedules without a cancel step
           Depth          \* maximal number of driver steps
 
 Min(a, b) == IF a < b THEN a ELSE b
 
 VARIABLES cfg,       \* [c, n, k, o, coll, F]
           started, nent, held,
-          phase,     \* "run" | "abort" (a failure that must abort was released) | "open" (an unclassified one) | "over"
+          phase,     \* "run" | "abort" (a failure that must abort was released) | "open" (an unclassified one) |
+                     \* "cancelled" / "closed" (the caller cancelled / the consumer closed the output) | "over"
           steps
 vars == <<cfg, started, nent, held, phase, steps>>
 view == <<cfg, started, nent, held, phase>>
@@ -91,7 +97,10 @@ Rep(i)  == Contract(cfg.F[i], cfg.o).report
 Refill(h, ne) == LET more == Min(cfg.n - ne, cfg.k - Cardinality(h))
                  IN  [held |-> h \cup ((ne + 1)..(ne + more)), nent |-> ne + more]
 
-Rec(op, arg, chk) == steps' = Append(steps, [op |-> op, arg |-> arg, chk |-> chk, held |-> held'])
+Group == {"pp", "pfe", "worker"}       \* Run(ctx) promises to wait for its workers
+\* run: "blocked" = the Run of a worker group must not have returned yet (a user function is still out)
+Rec(op, arg, chk) == steps' = Append(steps, [op |-> op, arg |-> arg, chk |-> chk, held |-> held',
+                        run |-> IF op = "cancel" /\ cfg.c \in Group /\ held' # {} THEN "blocked" ELSE "any"])
 
 Start == /\ phase = "run" /\ ~started
          /\ started' = TRUE
@@ -108,11 +117,20 @@ Release(i) ==
     /\ UNCHANGED <<cfg, started>>
     /\ Rec("rel", i, Cont(i) # "any")
 
+\* the caller cancels the context it runs the group / reads the output with (mode 0), or the consumer closes the
+\* output (mode 1), while at least one user function is held.  Nothing new may start; the held functions stay out;
+\* a worker group's Run must still be blocked (it waits for its workers); what they return when released by the
+\* final drain is still a failure of the processing function and must be reported.
+Cancel(m) == /\ phase = "run" /\ started /\ held # {} /\ m \in CancelModes
+             /\ (m = 1 => cfg.c \notin Group)
+             /\ phase' = (IF m = 0 THEN "cancelled" ELSE "closed") /\ UNCHANGED <<cfg, started, nent, held>>
+             /\ Rec("cancel", m, TRUE)
+
 Drain == /\ phase # "over" /\ started
          /\ phase' = "over" /\ held' = {} /\ UNCHANGED <<cfg, started, nent>>
          /\ Rec("drain", 0, TRUE)
 
-Step == Start \/ Drain \/ \E i \in 1..cfg.n : Release(i)
+Step == Start \/ Drain \/ (\E i \in 1..cfg.n : Release(i)) \/ \E m \in CancelModes : Cancel(m)
 Next == \/ \E i \in 1..cfg.n, kind \in FKinds : SetFault(i, kind)
         \/ /\ Len(steps) < Depth /\ Step
            /\ (Len(steps) = Depth - 1) => phase' = "over"
@@ -125,12 +143,16 @@ Inv == /\ held \subseteq 1..nent /\ nent <= cfg.n /\ Cardinality(held) <= cfg.k
 Name(s, i) == IF s = "E" THEN "E" \o ToString(i) ELSE s
 ItemRow(i) == [item |-> i, kind |-> cfg.F[i], report |-> Rep(i), cont |-> Cont(i),
                need |-> {Name(s, i) : s \in Need(cfg.F[i])}, carry |-> MayCarry(cfg.F[i])]
+Cancelled(s) == \E j \in 1..Len(s) : s[j].op = "cancel"
 Beh(s) == [cfg   |-> [c |-> cfg.c, n |-> cfg.n, k |-> cfg.k, coe |-> cfg.o.coe, cop |-> cfg.o.cop, inc |-> cfg.o.inc,
                       exc |-> cfg.o.exc, coll |-> cfg.coll, kinds |-> cfg.F,
                       faults |-> {ItemRow(i) : i \in Faulty},
                       never |-> NeverFound(cfg.o),
                       bound |-> cfg.k,
-                      full  |-> \A i \in 1..cfg.n : Cont(i) = "must"],
+                      \* a cancelled run need not process everything; with IncludeContextExpirationErrors the
+                      \* cancellation itself may be reported, so "nil iff no failure" is judged only without it
+                      full  |-> (\A i \in 1..cfg.n : Cont(i) = "must") /\ ~Cancelled(s),
+                      nilok |-> ~(Cancelled(s) /\ cfg.o.inc)],
            steps |-> s]
 
 \* all complete behaviours of at most Depth steps (BFS with `steps` in the state, or -simulate)
@@ -142,4 +164,5 @@ EmitEdge == phase' = "over" => PrintT(<<"BEH", ToJson(Beh(steps'))>>)
 OptsAll   == Opts
 OptsCore  == {x \in Opts : ~x.inc /\ ~x.exc}
 OptsAbort == {x \in Opts : ~x.coe /\ ~x.cop /\ ~x.inc /\ ~x.exc}
+OptsNoExc == {x \in Opts : ~x.exc}
 =============================================================================
